@@ -31,6 +31,7 @@ extern decltype(drv_vss_decode) A_drv_vss_decode, Z_drv_vss_decode;
 extern decltype(drv_vss_encode) A_drv_vss_encode, Z_drv_vss_encode;
 extern decltype(drv_vss_pad) A_drv_vss_pad, Z_drv_vss_pad;
 }
+extern "C" { extern decltype(drv_vss_strarr_pack) A_drv_vss_strarr_pack, Z_drv_vss_strarr_pack; }
 static int g_inc = 0;
 #define DRV(name) (g_inc == 1 ? A_##name : g_inc == 2 ? Z_##name : name)
 
@@ -195,6 +196,14 @@ static std::string gen(const std::string &prop, uint64_t base, uint64_t idx, boo
             if (r.coin()) { line(strf("op b=%d vssdec inc=%d", b.id, inc_variant)); i++; }
             continue;
         }
+        if (std::string(f->name) == "Vss" && r.chance(0.03)) {
+            // the string-array helper: packs a table of strings into the block that datatype 0x8B carries; what it produces depends on the strings only
+            int n = (int)r.range(0, 6);
+            std::string lens;
+            for (int k = 0; k < n; k++) lens += strf("%s%u", k ? "," : "", (unsigned)(r.chance(0.7) ? r.range(0, 12) : r.range(13, 90)));
+            line(strf("op b=%d strarr n=%d lens=%s stale=0x%x sseed=0x%llx inc=%d", b.id, n, lens.empty() ? "-" : lens.c_str(), (unsigned)r.below(65536), (unsigned long long)r.next(), inc_variant));
+            continue;
+        }
         if (std::string(f->name) == "Vss" && b.pay >= 300 && r.chance(0.12)) {
             // Avtp_Vss_Pad is a compound write as well: zeroed padding, acf_msg_length and pad fields for a message of the given length
             unsigned maxlen = (unsigned)std::min<int>(2044, (int)f->spec_bytes + b.pay - 4);
@@ -210,8 +219,8 @@ static std::string gen(const std::string &prop, uint64_t base, uint64_t idx, boo
             if (b.pay >= 2048 && r.chance(0.5)) len = (unsigned)(r.coin() ? (unsigned[]){65, 255, 256, 1004, 1005, 1008, 1009, 2024, 2028}[r.below(9)] : r.range(65, 2028));
             uint32_t bid = (uint32_t)(r.chance(0.4) ? (uint32_t[]){0, 1, 0x7ff, 0x800, 0x1fffffff, 0x20000000, 0xffffffffu}[r.below(7)] : r.next());
             // (a data-less frame is also built with a null payload pointer)
-            line(strf("op b=%d build kind=%s id=0x%x len=%u variant=%d dseed=0x%llx%s", b.id, kinds[r.below(4)], bid, len, (int)(r.chance(0.85) ? r.below(2) : (unsigned[]){2, 3, 4, 8, 16, 255}[r.below(6)]), (unsigned long long)r.next(),
-                      (len == 0 && r.coin()) ? " nullp=1" : r.chance(0.3) ? " fixed=1" : r.chance(0.15) ? " inplace=1" : "") + strf(" inc=%d", inc_variant));
+            line(strf("op b=%d build kind=%s id=0x%x len=%u variant=%d dseed=0x%llx%s", b.id, kinds[r.below(4)], bid, len, (int)(r.chance(0.2) ? -1 - (int)r.below(2) : r.chance(0.85) ? r.below(2) : (unsigned[]){2, 3, 4, 8, 16, 255}[r.below(6)]), (unsigned long long)r.next(),
+                      (len == 0 && r.coin()) ? " nullp=1" : r.chance(0.3) ? " fixed=1" : r.chance(0.15) ? " inplace=1" : r.chance(0.08) ? strf(" far=%d", (int)r.range(1, 3)).c_str() : "") + strf(" inc=%d", inc_variant));
             continue;
         }
         unsigned k = (unsigned)r.below(100);
@@ -600,6 +609,40 @@ static void exec(const std::string &text, bool verbose) {
             b.wr_seq[fl->name] = op_index; b.wr_task_seq[fl->name] = task_switches; b.wr_via[fl->name] = "ded";
             continue;
         }
+        if (what == "strarr") {
+            int n = (int)kv.u64("n");
+            std::vector<unsigned> L;
+            { std::string ls = kv.str("lens", "-"); if (ls != "-") { size_t p0 = 0; while (p0 <= ls.size()) { size_t q = ls.find(',', p0); L.push_back((unsigned)strtoul(ls.substr(p0, q - p0).c_str(), nullptr, 10)); if (q == std::string::npos) break; p0 = q + 1; } } }
+            if (n < 0 || n > 48 || (int)L.size() != n) continue;
+            Rng sr(kv.u64("sseed", 1));
+            std::vector<std::vector<char>> strs(n);
+            std::vector<char *> sp(n ? n : 1);
+            std::vector<uint16_t> sl(n ? n : 1);
+            std::vector<uint8_t> ref;
+            for (int k = 0; k < n; k++) {
+                strs[k].resize(L[k] + 1);
+                for (auto &ch : strs[k]) ch = (char)(0x20 + sr.below(0x5f));
+                sp[k] = strs[k].data(); sl[k] = (uint16_t)L[k];
+                ref.push_back((uint8_t)(L[k] >> 8)); ref.push_back((uint8_t)L[k]);
+                ref.insert(ref.end(), strs[k].begin(), strs[k].begin() + L[k]);
+            }
+            std::vector<uint8_t> packed(ref.size() + 64, 0x7e);
+            ev("strarr", strf("n=%d bytes=%zu", n, ref.size()));
+            uint8_t *pp = packed.data();
+            char **spp = sp.data();
+            uint16_t *slp = sl.data();
+            uint16_t stale = (uint16_t)kv.u64("stale", 0);
+            DIRTY();
+            uint64_t got = DRV(drv_vss_strarr_pack)(pp, spp, slp, n, stale);
+            per_entry["entry.vss_string_array_pack"]++;
+            if ((got >> 16) != ref.size() || (got & 0xffff) != (uint64_t)n)
+                violation("read:Vss.<strarr>:length", strf("packing %d strings of %zu bytes in all (length field of the descriptor held %u before the call) reports %llu bytes and %llu strings",
+                                                             n, ref.size(), stale, (unsigned long long)(got >> 16), (unsigned long long)(got & 0xffff)));
+            if (memcmp(packed.data(), ref.data(), ref.size()) != 0 || packed[ref.size()] != 0x7e || packed[ref.size() + 1] != 0x7e)
+                violation("bytes:Vss.<strarr>", strf("the packed block of %d strings differs from 16-bit length + bytes per string, or bytes behind it were written", n));
+            check_bytes("Vss.<strarr>", "after packing a string array into a buffer of its own (the message is not an argument)");
+            continue;
+        }
         if (what == "vssenc") {
             if (std::string(f->name) != "Vss" || b.parent >= 0) continue;
             static const unsigned nb[] = {1, 1, 2, 2, 4, 4, 8, 8, 1, 4, 8};
@@ -696,7 +739,10 @@ static void exec(const std::string &text, bool verbose) {
             size_t pad = (4 - len % 4) % 4;
             if (len > 2028 || b.off + hdr + len + pad > a.size - kGuard) continue;
             uint32_t cid = (uint32_t)kv.u64("id");
-            int variant = (int)kv.u64("variant") & 0xff;  // (the FDF field holds the variant modulo its width of one bit)
+            int variant = (int)kv.i64("variant", 0);  // (the FDF field holds the variant modulo its width of one bit)
+            // -1 / -2: the enumerators AVTP_CAN_FD / AVTP_CAN_CLASSIC by name; whatever their numeric values, an FD message says FDF = 1
+            int variant_bit = variant == -1 ? 1 : variant == -2 ? 0 : (variant & 1);
+            if (variant >= 0) variant &= 0xff;
             std::vector<uint8_t> src(len + 1);
             Rng dr(kv.u64("dseed", 1));
             for (auto &x : src) x = (uint8_t)dr.next();
@@ -708,6 +754,17 @@ static void exec(const std::string &text, bool verbose) {
             int bk = (kind == "setpayload" && !brief) ? 0 : kind == "finalize" ? 1 : 2;
             uint8_t *srcp = (len == 0 && kv.u64("nullp", 0)) ? nullptr : src.data();
             bool fixed = kv.u64("fixed", 0) && srcp;
+            // the payload lies exactly 4 GiB, 8 GiB or -4 GiB away from where it goes (pointer differences that are kept in 32 bits read 0)
+            void *far_map = nullptr;
+            size_t far_len = 0;
+            if (kv.u64("far", 0) && srcp && len > 0 && bk != 1) {
+                static const int64_t dist[] = {0, 1LL << 32, 2LL << 32, -(1LL << 32)};
+                uintptr_t want = (uintptr_t)((int64_t)(uintptr_t)(pdu + hdr) + dist[kv.u64("far") & 3]);
+                uintptr_t pg = want & ~(uintptr_t)4095;
+                far_len = ((want + len + 4095) & ~(uintptr_t)4095) - pg;
+                void *m = mmap((void *)pg, far_len, PROT_READ | PROT_WRITE, MAP_PRIVATE | MAP_ANONYMOUS | MAP_FIXED_NOREPLACE, -1, 0);
+                if (m == (void *)pg) { far_map = m; memcpy((void *)want, src.data(), len); srcp = (uint8_t *)want; per_entry["entry.build.payload_a_multiple_of_4GiB_away"]++; }
+            }
             // zero-copy use: the application has put the frame data where the message keeps it and passes that very address
             bool inplace = kv.u64("inplace", 0) && srcp && !fixed && len > 0 && bk != 1;
             if (inplace) { srcp = pdu + hdr; inplace_model = true; per_entry["entry.build.payload_in_place"]++; }
@@ -718,9 +775,10 @@ static void exec(const std::string &text, bool verbose) {
                 if (brief) DRV(drv_canbrief_setpayload)(pdu, cid, srcp, (uint16_t)len, variant);
                 else if (!fixed || !DRV(drv_can_create_fixed)(pdu, cid, srcp, (uint16_t)len, variant)) DRV(drv_can_create)(pdu, cid, srcp, (uint16_t)len, variant);
                 else per_entry["entry.build.create_fixed_size_object"]++;
-                m_payload(); mset("EFF", cid > 0x7ff); mset("CAN_IDENTIFIER", cid); mset("FDF", (uint64_t)variant & 1); m_finalize();
+                m_payload(); mset("EFF", cid > 0x7ff); mset("CAN_IDENTIFIER", cid); mset("FDF", (uint64_t)variant_bit); m_finalize();
                 kind = "create";
             }
+            if (far_map) munmap(far_map, far_len);
             per_entry["entry.build." + kind]++;
             check_bytes(strf("%s.<build>:%s", f->name, kind.c_str()), strf("after the %s builder (%s) with id 0x%x, %zu payload bytes, variant %d", f->name, kind.c_str(), cid, len, variant));
             // what the message says about its own payload must agree as well
